@@ -48,7 +48,7 @@ def allLabels : List String :=
     ++ [coaLigaseLabel] ++ modifiers ++ carrierProteins ++ ends
 
 /-- TABLE FACT: the classes are exclusive apart from loader ⊆ starter -/
-theorem universe_kinds : ∀ l ∈ allLabels, (allKinds.any fun k => k.bits == bitsOfLabel l) = true := by
+theorem allLabels_kinds : ∀ l ∈ allLabels, (allKinds.any fun k => k.bits == bitsOfLabel l) = true := by
   decide
 
 theorem bits_outside (l : String) (h : l ∉ allLabels) : bitsOfLabel l = Kind.other.bits := by
@@ -76,7 +76,7 @@ def kindOfLabel (l : String) : Kind :=
 theorem bits_kindOfLabel (l : String) : bitsOfLabel l = (kindOfLabel l).bits := by
   have hex : (allKinds.any fun k => k.bits == bitsOfLabel l) = true := by
     by_cases h : l ∈ allLabels
-    · exact universe_kinds l h
+    · exact allLabels_kinds l h
     · rw [bits_outside l h]; decide
   unfold kindOfLabel
   cases hf : allKinds.find? fun k => k.bits == bitsOfLabel l with
@@ -140,7 +140,7 @@ theorem class_keys_nonempty : ∀ kv ∈ classifications, kv.1.isEmpty = false :
 
 /-- TABLE FACT: everything the class predicates know is classified (Component construction
     succeeds on it) -/
-theorem universe_classified : ∀ l ∈ allLabels, (classify l).isSome = true := by decide
+theorem allLabels_classified : ∀ l ∈ allLabels, (classify l).isSome = true := by decide
 
 /-- TABLE FACT: fused starters are loaders or `other` (never carrier/end/modification) -/
 theorem fused_kinds : ∀ l ∈ fusedStarters, kindOfLabel l = .loader ∨ kindOfLabel l = .other := by decide
